@@ -184,7 +184,7 @@ BUILTIN_EXC_BASES = {
     "ImportError": "Exception", "RecursionError": "RuntimeError", "timeout": "OSError",
 }
 
-_NATIVE_TYPES = (int, float, bool, str, bytes, type(None), list, tuple, dict, set, frozenset, range, slice)
+_NATIVE_TYPES = (int, float, bool, str, bytes, bytearray, type(None), list, tuple, dict, set, frozenset, range, slice)
 
 # methods of native values that may be executed natively (pure or mutating the model value itself)
 _NATIVE_METHODS = {
@@ -202,6 +202,7 @@ _NATIVE_METHODS = {
     int: {"to_bytes", "bit_length", "is_integer"},
     float: {"is_integer"},
     bool: {"to_bytes", "bit_length"},
+    bytearray: {"decode", "hex", "index", "find", "append", "extend", "pop", "startswith", "endswith", "reverse", "copy"},
 }
 
 _PURE_STDLIB = {"struct", "bisect", "operator", "math", "re", "itertools", "functools", "string"}
@@ -628,7 +629,7 @@ class Interp:
             if isinstance(base, Obj) and "__items__" in base.attrs:
                 base.attrs["__items__"][key] = v
                 return
-            if not isinstance(base, (list, dict)):
+            if not isinstance(base, (list, dict, bytearray)):
                 raise Unsupported(f"subscript store on {type(base).__name__}")
             try:
                 base[key] = v
@@ -661,7 +662,7 @@ class Interp:
         return bool(v)
 
     def iterate(self, v, node=None):
-        if isinstance(v, (list, tuple, range, str, bytes, set, frozenset)):
+        if isinstance(v, (list, tuple, range, str, bytes, bytearray, set, frozenset)):
             return list(v)
         if isinstance(v, dict):
             return list(v.keys())
@@ -1073,7 +1074,7 @@ class Interp:
                 raise Raised(ExcVal("KeyError", (key,)), e)
         if isinstance(base, Obj) and "__getitem__" in base.attrs:
             return base.attrs["__getitem__"](key)
-        if isinstance(base, (list, tuple, dict, str, bytes, range)):
+        if isinstance(base, (list, tuple, dict, str, bytes, bytearray, range)):
             try:
                 return base[key]
             except Exception as ex:
